@@ -114,9 +114,9 @@ def main():
         "setup_cmd": "cd /verif/harness && CARGO_NET_OFFLINE=true cargo build --release --offline",
         "hooks": {
             "guard": "texcraft_verif",
-            "enable": "none needed: every observation point is public API; RUSTFLAGS='--cfg texcraft_verif' is reserved",
+            "enable": "harness/.cargo/config.toml sets build.rustflags to --cfg texcraft_verif, so the harness build (and only it) compiles /repo with the hook on; one hook: a read accessor HyphenationComponent::hyphenator() in texlang-texttransform, used by the C13 sub-check primitives",
             "baseline_off_cmd": "cd /repo && cargo test --workspace --no-fail-fast --offline",
-            "source_commits": [],
+            "source_commits": ["1951061e478d0b089a3827698b235207e9cd9bd7"],
             "add_only": True,
         },
         "engines": [{
